@@ -18,7 +18,7 @@ CUT_PRE = dict(
 )
 
 
-@contract("modifiers.py", "ReverseComplementer.__call__", props=["C16", "C03"])
+@contract("modifiers.py", "ReverseComplementer.__call__", props=["C16", "C03", "C20"])
 def reverse_complementer_call(c):
     c.types(self=RCT, read=Record, info=InfoT)
     c.returns(Record)
@@ -27,9 +27,12 @@ def reverse_complementer_call(c):
     c.spec(record_spec)
     c.spec(upper_rec)
     c.requires(**CUT_PRE)
+    c.ghost("g_t0 = tally_len()\ng_rc0 = rc_total()", at_start=True)
     c.loop(1, head="for match in matches", inv=["0 <= __k1 <= len(matches)",
                                                "self.reverse_complemented == old(self.reverse_complemented) + (1 if use_reverse_complement else 0)",
-                                               "self.adapter_cutter.with_adapters == old(self.adapter_cutter.with_adapters) + 1"])
+                                               "self.adapter_cutter.with_adapters == old(self.adapter_cutter.with_adapters) + 1",
+                                               "tally_len() == g_t0 + __k1 and rc_total() == g_rc0 + (__k1 if use_reverse_complement else 0)",
+                                               "forall(t, 0, __k1, tally_id(g_t0 + t) == elem(matches, t).__id__ and tally_key(g_t0 + t) == elem(matches, t).adapter.__id__)"])
     c.ensures(
         reverse_used_iff_it_has_a_match_and_scores_strictly_higher=
             "use_reverse_complement == (len(reverse_matches) > 0 and reverse_score > forward_score)",
@@ -47,7 +50,12 @@ def reverse_complementer_call(c):
                                                "forall(t, 0, len(matches), elem(info.matches, len(old(info.matches)) + t).__id__ == "
                                                "elem(reverse_matches if use_reverse_complement else forward_matches, t).__id__)",
         with_adapters_counted="self.adapter_cutter.with_adapters == old(self.adapter_cutter.with_adapters) + (1 if len(matches) > 0 else 0)",
+        statistics_registered_only_for_the_chosen_orientation="tally_len() == g_t0 + len(matches) and forall(t, 0, len(matches), "
+            "tally_id(g_t0 + t) == elem(reverse_matches if use_reverse_complement else forward_matches, t).__id__ and "
+            "tally_key(g_t0 + t) == elem(matches, t).adapter.__id__)",
+        matches_on_reverse_complement_counted="rc_total() == g_rc0 + (len(matches) if use_reverse_complement else 0)",
     )
+    c.mutant("stats.reverse_complemented += bool(use_reverse_complement)", "stats.reverse_complemented += 1")
     c.mutant("reverse_score > forward_score", "reverse_score >= forward_score")
     c.mutant("info.is_rc = True", "info.is_rc = False")
     c.mutant("self.reverse_complemented += 1", "pass")
@@ -68,7 +76,7 @@ def _cut_pre(which, r):
     }
 
 
-@contract("modifiers.py", "PairedReverseComplementer.__call__", props=["C16", "C03", "C05"])
+@contract("modifiers.py", "PairedReverseComplementer.__call__", props=["C16", "C03", "C05", "C20"])
 def paired_reverse_complementer_call(c):
     c.types(self=PRCT, r1=Record, r2=Record, info1=InfoT, info2=InfoT)
     c.returns(TupT(Record, Record))
@@ -84,13 +92,19 @@ def paired_reverse_complementer_call(c):
                **_cut_pre(1, "r1"), **_cut_pre(2, "r2"))
     c.ghost("g_r1_trimmed = r1_trimmed\ng_r2_trimmed = r2_trimmed\ng_r1_matches = r1_matches\ng_r2_matches = r2_matches",
             before="if use_reverse_complement:")
+    c.ghost("g_t0 = tally_len()\ng_rc0 = rc_total()", at_start=True)
     c.loop(1, head="for match in r1_matches", inv=[
         "0 <= __k1 <= len(r1_matches)",
-        "self.reverse_complemented == old(self.reverse_complemented) + (1 if use_reverse_complement else 0)"])
+        "self.reverse_complemented == old(self.reverse_complemented) + (1 if use_reverse_complement else 0)",
+        "tally_len() == g_t0 + __k1 and rc_total() == g_rc0 + (__k1 if use_reverse_complement else 0)",
+        "forall(t, 0, __k1, tally_id(g_t0 + t) == elem(r1_matches, t).__id__ and tally_key(g_t0 + t) == elem(r1_matches, t).adapter.__id__)"])
     c.loop(2, head="for match in r2_matches", inv=[
         "0 <= __k2 <= len(r2_matches)",
         "self.reverse_complemented == old(self.reverse_complemented) + (1 if use_reverse_complement else 0)",
-        "len(info1.matches) == len(old(info1.matches)) + len(r1_matches)"])
+        "len(info1.matches) == len(old(info1.matches)) + len(r1_matches)",
+        "tally_len() == g_t0 + len(r1_matches) + __k2 and rc_total() == g_rc0 + ((len(r1_matches) + __k2) if use_reverse_complement else 0)",
+        "forall(t, 0, len(r1_matches), tally_id(g_t0 + t) == elem(r1_matches, t).__id__)",
+        "forall(t, 0, __k2, tally_id(g_t0 + len(r1_matches) + t) == elem(r2_matches, t).__id__ and tally_key(g_t0 + len(r1_matches) + t) == elem(r2_matches, t).adapter.__id__)"])
     c.ensures(
         swapped_used_iff_it_has_a_match_and_scores_strictly_higher=
             "use_reverse_complement == ((len(r1_matches_swapped) > 0 or len(r2_matches_swapped) > 0) and swapped_score > unswapped_score)",
@@ -104,6 +118,12 @@ def paired_reverse_complementer_call(c):
                                                "len(info2.matches) == len(old(info2.matches)) + len(r2_matches) and "
                                                "len(r1_matches) == len(r1_matches_swapped if use_reverse_complement else g_r1_matches) and "
                                                "len(r2_matches) == len(r2_matches_swapped if use_reverse_complement else g_r2_matches)",
+    )
+    c.ensures(
+        statistics_registered_once_per_recorded_match="tally_len() == g_t0 + len(r1_matches) + len(r2_matches) and "
+            "forall(t, 0, len(r1_matches), tally_id(g_t0 + t) == elem(r1_matches, t).__id__) and "
+            "forall(t, 0, len(r2_matches), tally_id(g_t0 + len(r1_matches) + t) == elem(r2_matches, t).__id__)",
+        matches_on_reverse_complement_counted="rc_total() == g_rc0 + ((len(r1_matches) + len(r2_matches)) if use_reverse_complement else 0)",
     )
     c.mutant("swapped_score > unswapped_score", "swapped_score >= unswapped_score")
     c.mutant("r2_matches = r2_matches_swapped", "pass")
